@@ -170,6 +170,9 @@ pub fn run(mut run: Run) -> i32 {
         B { name: "nearly-parallel", a: (-1000000.0, -1000000.0), b: (1000000.0, 1000000.0000000002), c: (-1000000.0, -1000000.5), d0: (1000000.0, 1000000.0) },
         B { name: "large-magnitude", a: (-m, -m), b: (m, m + 2.0), c: (7.0, -3.0), d0: (1.0, 2.0) },
         B { name: "collinear-overlap", a: (1.0, 1.0), b: (9.0, 9.0), c: (3.0, 3.0), d0: (5.0, 5.0) },
+        // the moving endpoint pokes through the middle of the other segment by less than an ulp (nearest-endpoint fallback territory)
+        B { name: "end-pokes-through-middle", a: (-1000.0, 0.25), b: (1000.0, 1.75), c: (-446.5, 994.5), d0: (250.0, 1.1875) },
+        B { name: "end-pokes-through-middle-steep", a: (0.1, -700.0), b: (0.7, 900.0), c: (812.3, 55.5), d0: (0.4, 100.0) },
         B { name: "endpoint-near-endpoint", a: (0.1, 0.3), b: (0.7, 0.2), c: (0.9, 0.9), d0: (0.7, 0.2) },
     ];
     let ww = (w * w) as usize;
@@ -204,8 +207,13 @@ pub fn run(mut run: Run) -> i32 {
         acc.evals += 1;
         acc.class(format!("{} {:?}", b.name, exact));
         acc.sample(idx, || json!({"base": b.name, "moving_endpoint": [d.0, d.1], "exact": format!("{:?}", exact)}));
+        // every argument order and direction must satisfy the same clauses (the moving endpoint is q.end, q.start, p.end, p.start in turn)
+        let (pr, qr) = (Line::new(cf(b.b), cf(b.a)), Line::new(cf(d), cf(b.c)));
+        for (vname, x, y) in [("p,q", p, q), ("q,p", q, p), ("p,reversed q", p, qr), ("reversed q,p", qr, p), ("reversed p,q", pr, q), ("q,reversed p", q, pr)] {
+        let (p, q) = (x, y);
+        let (pa, pb, qa, qb) = ((p.start.x, p.start.y), (p.end.x, p.end.y), (q.start.x, q.start.y), (q.end.x, q.end.y));
         let got = guard(|| line_intersection(p, q));
-        let wit = |g: String| json!({"base": b.name, "p": format!("{:?}", p), "q": format!("{:?}", q), "exact": format!("{:?}", exact), "got": g});
+        let wit = |g: String| json!({"base": b.name, "argument_order": vname, "p": format!("{:?}", p), "q": format!("{:?}", q), "exact": format!("{:?}", exact), "got": g});
         match got {
             Err(e) => acc.viol(format!("line_intersection panic [{}]", b.name), idx, || wit(e)),
             Ok(r) => {
@@ -220,8 +228,8 @@ pub fn run(mut run: Run) -> i32 {
                     let ip = (intersection.x, intersection.y);
                     if !*is_proper {
                         // must be one of the endpoints, and lie on both segments exactly
-                        let is_end = [b.a, b.b, b.c, d].contains(&ip);
-                        if !is_end || !bigf::on_segment(b.a, b.b, ip) || !bigf::on_segment(b.c, d, ip) {
+                        let is_end = [pa, pb, qa, qb].contains(&ip);
+                        if !is_end || !bigf::on_segment(pa, pb, ip) || !bigf::on_segment(qa, qb, ip) {
                             acc.viol(format!("improper point is not an endpoint lying on both segments [{}]", b.name), idx, || wit(describe(&r)));
                         }
                     } else {
@@ -240,6 +248,7 @@ pub fn run(mut run: Run) -> i32 {
                     acc.viol(format!("is_some disagrees with intersects / exact [{}]", b.name), idx, || wit(describe(&r)));
                 }
             }
+        }
         }
     });
     run.finish()
